@@ -544,3 +544,5 @@ Definition plan_par_okb (p : plan) (s : state) : bool :=
 Definition ex_fault_plan : plan := [(2%nat, WFn, AFail FErr); (3%nat, WFn, AFail FErr)].
 Definition blk_err (r : res (state * option err * list nid)) : option err :=
   match r with Ok (_, e, _) => e | _ => None end.
+Definition ok_none (r : M) : bool := match r with Ok (_, None) => true | _ => false end.
+Definition crashes_oob (r : M) : bool := match r with Crash IndexOutOfRange => true | _ => false end.
